@@ -691,4 +691,72 @@ example : fracVolumesVLW (917 : ℝ) 1000 300 (0.1 * 300 / 917) ≠ (fracVolumeL
   simp only [fracVolumesVLW, fracVolumeLW] at this
   norm_num at this
 
+/-! ### depth-to-thickness conversion is scale covariant (wave 7: differences rounded to a fixed unit) -/
+
+theorem diffs_scale (a : Int) : ∀ l : List Int, diffs (l.map (a * ·)) = (diffs l).map (a * ·)
+  | [] => rfl
+  | [_] => rfl
+  | x :: y :: rest => by
+    simp only [List.map, diffs]
+    rw [← List.map_cons (f := (a * ·)) (a := y) (l := rest), diffs_scale a (y :: rest)]
+    congr 1
+    ring
+
+theorem all_pos_scale (a : Int) (ha : 0 < a) (l : List Int) : (l.map (a * ·)).all (· > 0) = l.all (· > 0) := by
+  induction l with
+  | nil => rfl
+  | cons x xs ih =>
+    simp only [List.map, List.all_cons, ih]
+    congr 1
+    simp only [gt_iff_lt, decide_eq_decide]
+    constructor
+    · intro h; exact pos_of_mul_pos_right (by linarith : 0 < a * x) ha.le |> fun h' => h'
+    · intro h; exact mul_pos ha h
+
+theorem all_neg_scale (a : Int) (ha : 0 < a) (l : List Int) : (l.map (a * ·)).all (· < 0) = l.all (· < 0) := by
+  induction l with
+  | nil => rfl
+  | cons x xs ih =>
+    simp only [List.map, List.all_cons, ih]
+    congr 1
+    simp only [decide_eq_decide]
+    constructor
+    · intro h; by_contra hx; push_neg at hx; nlinarith [mul_nonneg ha.le hx]
+    · intro h; nlinarith [mul_pos ha (neg_pos.mpr h)]
+
+theorem any_zero_scale (a : Int) (ha : 0 < a) (l : List Int) : (l.map (a * ·)).any (· == 0) = l.any (· == 0) := by
+  induction l with
+  | nil => rfl
+  | cons x xs ih =>
+    simp only [List.map, List.any_cons, ih]
+    congr 1
+    simp only [beq_iff_eq, Bool.decide_eq_true, beq_eq_decide, decide_eq_decide]
+    constructor
+    · intro h; rcases Int.mul_eq_zero.mp h with h | h
+      · omega
+      · exact h
+    · intro h; simp [h]
+
+theorem neg_scale (a : Int) (l : List Int) : (l.map (a * ·)).map (fun x => -x) = (l.map (fun x => -x)).map (a * ·) := by
+  simp only [List.map_map]; congr 1; funext x; simp [mul_neg]
+
+/-- **depth-to-thickness conversion is scale covariant**: the same profile written in a unit `a` times smaller (every depth `a` times
+    the number it was) gives `a` times the thicknesses, in each of the three conventions, and is refused exactly when the original is -
+    no length is special (what a rounding of the differences to a fixed unit would break) -/
+theorem thickness_from_z_scale (a : Int) (ha : 0 < a) (z : List Int) :
+    thicknessFromZ (z.map (a * ·)) = (thicknessFromZ z).map (List.map (a * ·)) := by
+  have e1 : ((z.map (a * ·)) ++ [0]).map (fun x => -x) = ((z ++ [0]).map (fun x => -x)).map (a * ·) := by
+    have : (z.map (a * ·)) ++ [0] = (z ++ [0]).map (a * ·) := by simp
+    rw [this, neg_scale]
+  have e2 : (0 :: z.map (a * ·)).map (fun x => -x) = ((0 :: z).map (fun x => -x)).map (a * ·) := by
+    have : (0 :: z.map (a * ·)) = (0 :: z).map (a * ·) := by simp
+    rw [this, neg_scale]
+  have e3 : (0 :: z.map (a * ·)) = (0 :: z).map (a * ·) := by simp
+  unfold thicknessFromZ
+  rw [any_zero_scale a ha, diffs_scale, all_neg_scale a ha, all_pos_scale a ha, all_pos_scale a ha, all_neg_scale a ha, e1, e2, e3,
+    diffs_scale, diffs_scale, diffs_scale]
+  split_ifs <;> rfl
+
+example : thicknessFromZ ([87, 82, 69, 45, 30].map (3 * ·)) = .ok ([5, 13, 24, 15, 30].map (3 * ·)) := by decide
+
 end Smrt.Props.C16
